@@ -23,7 +23,10 @@ RULE = ('programs over real fsic objects: a class (VectorContainer; parser-built
         'BaseModel subclasses; BaseLinker subclasses with two nested submodels; with and without AliasMixin / '
         'TracerMixin, TRACE_VARIABLES None or a class-level list), two sibling instances over range / list spans, a '
         'random history of mutating operations (element writes, rebinding, add_variable, add_attribute, strict / lags, '
-        'appends and pops on names/check/endogenous/index/_attributes/span/preferred_names/user lists, aliases dict, '
+        'appends and pops on check/endogenous/_attributes/preferred_names/user lists, aliases dict, add_attribute with '
+        'NESTED values (list, dict, nested list, tuple of lists, namedtuple holding a dict, tuple of ndarrays, dict of '
+        'lists) and in-place edits of their inner lists / dicts / arrays, linkers built with DEFAULT arguments '
+        '(`Linker()`, submodels stored by the caller afterwards), '
         'trace_t, class-level list mutations, the same through submodels, and RE-SYNCHRONISATION: a whole variable '
         'assigned from ANOTHER object of the class (copy / sibling / submodel) as attribute, string key, replace_values, '
         '`values`, view, astype, list, tolist) with copies by all three routes at random '
@@ -34,7 +37,9 @@ RULE = ('programs over real fsic objects: a class (VectorContainer; parser-built
         'a comparison of the full observable state of the other side; the same again AFTER re-synchronising the two sides '
         '(every variable assigned as a whole from the other side, either direction, 9 spellings; then element / '
         'period / slice assignment, solve, solve_t, generic array writes); pairs = (original, copy) for each route, '
-        '(instance, sibling), (instance, class), both directions. distinct = distinct (class spec, program); '
+        '(instance, sibling), (instance, class), both directions; plus sibling pairs / instance-vs-class for EVERY '
+        'combination of given / omitted constructor arguments (containers, models, linkers with submodels omitted / '
+        'None / {} / dict; exhaustive in the thorough tier, sampled in quick). distinct = distinct (class spec, program); '
         'non-trivial = program with at least one copy and one structural mutation')
 TRUSTED = ['CPython object identity (id) and NumPy buffer ownership (ndarray.base) as the notion of "same object"',
            'pandas index objects and NumPy scalars/dtypes are treated as immutable values',
@@ -172,13 +177,27 @@ def gen_case(rng):
         for r in roots:
             sh[r]['span_list'] = False
             sh[r]['lists'] = [l for l in sh[r]['lists'] if l != ['span']]
-        prog.append({'c': 'dict', 'r': 'd', 'entries': [['A', 'a'], ['B', 'b']]})
-        prog.append({'c': 'new', 'r': 'l', 'cls': 'L', 'span': {'range': n}, 'sub': 'd'})
-        lnames = ['T', 'W'] if classes['L']['style'] == 'explicit' else []
-        sh['l'] = {'cls': 'L', 'kind': 'linker', 'vars': lnames, 'lists': [['_attributes'],
-                   ['check'], ['endogenous']] + ([['preferred_names']] if classes['L']['alias'] else []),
-                   'traced': {}, 'span_list': False, 'attrs': 0, 'subs': {'A': 'a', 'B': 'b'}}
-        roots.append('l')
+        llists = [['_attributes'], ['check'], ['endogenous']] + ([['preferred_names']] if classes['L']['alias'] else [])
+        if rng.random() < 0.4:
+            # linkers built with DEFAULT arguments (`Linker()`): each gets its own new `submodels` dict and `span` list;
+            # the caller then stores the submodels itself
+            for r in ('l', 'l2'):
+                prog.append({'c': 'new', 'r': r, 'cls': 'L', 'span': {'list': []}})
+                sh[r] = {'cls': 'L', 'kind': 'linker', 'vars': [], 'lists': [list(x) for x in llists], 'traced': {},
+                         'span_list': False, 'attrs': 0, 'subs': {}, 'n': 0}
+            prog.append({'c': 'snap', 'roots': ['l', 'l2', 'a', 'b'] + sorted(classes)})
+            prog.append({'c': 'subadd', 'r': 'l', 'key': 'A', 'of': 'a'})
+            prog.append({'c': 'subadd', 'r': 'l', 'key': 'B', 'of': 'b'})
+            sh['l']['subs'] = {'A': 'a', 'B': 'b'}
+            roots += ['l', 'l2']
+            classes['L']['default_args'] = True
+        else:
+            prog.append({'c': 'dict', 'r': 'd', 'entries': [['A', 'a'], ['B', 'b']]})
+            prog.append({'c': 'new', 'r': 'l', 'cls': 'L', 'span': {'range': n}, 'sub': 'd'})
+            lnames = ['T', 'W'] if classes['L']['style'] == 'explicit' else []
+            sh['l'] = {'cls': 'L', 'kind': 'linker', 'vars': lnames, 'lists': llists,
+                       'traced': {}, 'span_list': False, 'attrs': 0, 'subs': {'A': 'a', 'B': 'b'}}
+            roots.append('l')
         nested.update(['a', 'b'])
     all_roots = lambda: [r for r in roots if r not in nested] + sorted(classes)   # noqa: E731
     prog.append({'c': 'snap', 'roots': all_roots()})
@@ -186,8 +205,13 @@ def gen_case(rng):
     def gen_op(r, depth=0):
         s = sh[r]
         spec = classes[s['cls']]
-        choices = ['addVariable', 'addAttrList', 'addAttrImm', 'append', 'append', 'setAttrImm']
-        if s['vars']:
+        choices = ['addVariable', 'addAttrList', 'addAttrImm', 'append', 'append', 'setAttrImm', 'buildAttr', 'buildAttr']
+        if s.get('dicts'):
+            choices += ['dictSetAttr']
+        if s.get('arrays'):
+            choices += ['setAt']
+        nn_ = s.get('n', n)
+        if s['vars'] and nn_ > 0:
             choices += ['setCell', 'rebind']
         if any(s['lists']):
             choices += ['popLast']
@@ -195,12 +219,13 @@ def gen_case(rng):
             choices.append('dictSet')
         if spec.get('tracer'):
             choices += ['traceT', 'traceT']
-        if s['kind'] == 'linker' and depth == 0:
+        if s['kind'] == 'linker' and depth == 0 and s.get('subs'):
             choices += ['inSub', 'inSub', 'inSub']
         if depth > 0:
             choices = [c for c in choices if c != 'popLast']
         # re-synchronisation: a whole variable assigned from ANOTHER object of the same class (copy, sibling, submodel)
-        others = [q for q in roots if q != r and sh[q]['cls'] == s['cls'] and sh[q]['vars']]
+        others = [q for q in roots if q != r and sh[q]['cls'] == s['cls'] and sh[q]['vars']
+                  and sh[q].get('n', n) == nn_ and nn_ > 0]
         if s['vars'] and others:
             choices += ['assignFrom'] * 4
             if depth == 0:
@@ -214,19 +239,32 @@ def gen_case(rng):
         if o == 'assignValues':
             same = [q for q in others if len(sh[q]['vars']) == len(s['vars'])]
             if not same:
-                return {'o': 'setCell', 'x': rng.choice(s['vars']), 'i': rng.randrange(n), 'v': rng.randrange(1, 9)}
+                return {'o': 'setCell', 'x': rng.choice(s['vars']), 'i': rng.randrange(max(nn_, 1)), 'v': rng.randrange(1, 9)}
             q = rng.choice(same)
             pre = []   # `values` runs over `index` (containers) / `names` (models, linkers): the variables only
             return {'o': 'assignValues', 'from': q,
                     'pairs': [[a_, b_] for a_, b_ in zip(pre + s['vars'], pre + sh[q]['vars'])]}
+        if o == 'buildAttr':
+            x = fresh_name('nst')
+            shape = rng.choice(hc.ATTR_SHAPES)
+            spec_ = hc.attr_spec(shape, x)
+            nodes, inner = hc.spec_nodes(spec_, [], x)
+            s['lists'] += inner['list']
+            s.setdefault('dicts', []).extend(inner['dict'])
+            s.setdefault('arrays', []).extend(inner['array'])
+            return {'o': 'buildAttr', 'x': x, 'shape': shape, 'spec': spec_, 'nodes': nodes}
+        if o == 'dictSetAttr':
+            return {'o': 'dictSet', 'f': rng.choice(s['dicts']), 'k': fresh_name('dk'), 'v': 'val'}
+        if o == 'setAt':
+            return {'o': 'setAt', 'f': rng.choice(s['arrays']), 'k': '0', 'v': rng.randrange(1, 9)}
         if o == 'setCell':
-            return {'o': 'setCell', 'x': rng.choice(s['vars']), 'i': rng.randrange(n), 'v': rng.randrange(1, 9)}
+            return {'o': 'setCell', 'x': rng.choice(s['vars']), 'i': rng.randrange(max(nn_, 1)), 'v': rng.randrange(1, 9)}
         if o == 'rebind':
-            return {'o': 'rebind', 'x': rng.choice(s['vars']), 'n': n}
+            return {'o': 'rebind', 'x': rng.choice(s['vars']), 'n': nn_}
         if o == 'addVariable':
             x = fresh_name('V')
             s['vars'].append(x)
-            return {'o': 'addVariable', 'x': x, 'n': n, 'model': s['kind'] != 'container'}
+            return {'o': 'addVariable', 'x': x, 'n': nn_, 'model': s['kind'] != 'container'}
         if o == 'addAttrList':
             x = fresh_name('lst')
             s['lists'].append([x])
@@ -622,6 +660,8 @@ def diagnose_raise(rep, case, prep, exc):
 def oracle(rep, case, prep=None, forms=None):
     """Twin runs for one generated case: copies by each route, siblings, instance vs class."""
     try:
+        if case.get('kind') == 'ctor-defaults':
+            return oracle_ctor(rep, case, prep)
         return oracle_(rep, case, prep, forms)
     except Exception as e:   # noqa: BLE001
         # the same program ran once already: failing on a plain re-run means state survived outside the objects
@@ -694,6 +734,13 @@ def oracle_(rep, case, prep=None, forms=None):
         evaluations += twin(rep, 'sibling', 'l', l1, 'l2', l2, case, lk)
         evaluations += twin(rep, 'sibling', 'l2', l2, 'l', l1, case, lambda: lk(True))
         evaluations += twin_resync(rep, 'sibling', 'l', 'l2', case, lk, forms)
+        if 'l2' in case['roots']:   # two linkers built with default arguments by the program itself
+            def lk2(flip=False):
+                w = world()
+                return (w.roots['l2'], w.roots['l']) if flip else (w.roots['l'], w.roots['l2'])
+            x1, x2 = lk2()
+            evaluations += twin(rep, 'sibling', 'l', x1, 'l2(default args)', x2, case, lk2)
+            evaluations += twin(rep, 'sibling', 'l2(default args)', x2, 'l', x1, case, lambda: lk2(True))
     return evaluations
 
 
@@ -749,7 +796,7 @@ def first_difference(model, real, cross=False):
 
 def run(ctx, rep):
     n_prog = (400 if ctx.tier == 'quick' else 5000) * ctx.scale
-    n_oracle = (90 if ctx.tier == 'quick' else 1500) * ctx.scale
+    n_oracle = (70 if ctx.tier == 'quick' else 1500) * ctx.scale
     rng = ctx.sub_rng('programs')
     batch = []
     for i in range(n_prog):
@@ -781,6 +828,10 @@ def run(ctx, rep):
                         rep.dist['assign-from-other:' + inner['via']] += 1
                     if inner['o'] == 'assignValues':
                         rep.dist['assign-from-other:values'] += 1
+                    if inner['o'] == 'buildAttr':
+                        rep.dist['attribute-shape:' + inner['shape']] += 1
+                if cmd['c'] == 'subadd':
+                    rep.dist['linker-default-arguments:submodel stored by caller'] += 1
             structural = any(c['c'] == 'op' and c['op']['o'] != 'setCell' for c in case['prog'])
             rep.case(json.dumps(case, sort_keys=True), nontrivial=case['ncopies'] > 0 and structural,
                      sample={'classes': case['classes'], 'prog': case['prog'][:6], 'real': real[:160]}
@@ -790,6 +841,10 @@ def run(ctx, rep):
     if not ctx.oracle_only:
         compare_T(ctx, rep, batch)
     fixed_scenarios(ctx, rep)
+    for case in ctor_cases(ctx.tier, ctx.sub_rng('ctor')):
+        with pristine_globals():
+            rep.evaluations += oracle(rep, case)
+        rep.case(json.dumps(case, sort_keys=True), nontrivial=True)
     rep.notes.append(f'{n_prog} programs (T), twin oracle on the first {min(n_prog, n_oracle)} of them + fixed scenarios')
 
 
@@ -811,6 +866,143 @@ def fixed_scenarios(ctx, rep):
     fixed_scenarios_(ctx, rep, batch)
     if not ctx.oracle_only and batch:
         compare_T(ctx, rep, batch)
+
+
+def nested_attr_cmds(r):
+    """`add_attribute` with every nested shape (list, dict, nested list, tuple of lists, namedtuple holding a dict,
+    tuple of arrays, dict of lists)."""
+    out = []
+    for i, shape in enumerate(hc.ATTR_SHAPES):
+        x = f'nst{r}{i}'
+        spec_ = hc.attr_spec(shape, x)
+        nodes, _ = hc.spec_nodes(spec_, [], x)
+        out.append({'c': 'op', 'r': r, 'op': {'o': 'buildAttr', 'x': x, 'shape': shape, 'spec': spec_, 'nodes': nodes}})
+    return out
+
+
+# ---- siblings built with every combination of omitted constructor arguments ------------------------------------------
+
+MODEL_OPTS = ['strict', 'engine', 'dtype', 'default_value', 'init']
+LINKER_OPTS = ['span', 'name', 'dtype', 'default_value']
+LINKER_SUB = ['omitted', 'None', 'empty', 'dict']
+
+
+def ctor_call(classes, ctor):
+    """One instance built as the case says; every argument object is new (nothing is shared by the caller)."""
+    cls = classes[ctor['cls']]
+    given = ctor['given']
+    kw = {}
+    if 'strict' in given:
+        kw['strict'] = True
+    if 'engine' in given:
+        kw['engine'] = 'python'
+    if 'dtype' in given:
+        kw['dtype'] = float
+    if 'default_value' in given:
+        kw['default_value'] = 0.5
+    if 'name' in given:
+        kw['name'] = 'lk'
+    if ctor['kind'] == 'linker':
+        mode = ctor['sub']
+        if 'span' in given and mode != 'dict':
+            kw['span'] = range(3)
+        if mode == 'omitted':
+            return cls(**kw)
+        if mode == 'None':
+            return cls(None, **kw)
+        if mode == 'empty':
+            return cls({}, **kw)
+        M = classes['M']
+        return cls({'A': M(range(3)), 'B': M(range(3))}, **kw)
+    if 'init' in given:
+        names = list(getattr(cls, 'NAMES', []))
+        if names:
+            kw[names[0]] = 1.0
+    return cls(['p0', 'p1', 'p2'] if ctor.get('span_list') else range(3), **kw)
+
+
+def ctor_cases(tier, rng):
+    import itertools
+    out = []
+
+    def subsets(opts):
+        return [list(c) for k in range(len(opts) + 1) for c in itertools.combinations(opts, k)]
+    for given in (['strict'], []):
+        out.append({'classes': {'V': {'kind': 'container', 'style': 'container', 'alias': False}},
+                    'ctor': {'cls': 'V', 'kind': 'container', 'given': given}})
+    variants = [('parser', False, False), ('explicit', True, True), ('inherit', False, True)]
+    for vi, (style, alias, tracer) in enumerate(variants):
+        combos = subsets(MODEL_OPTS)
+        if tier == 'quick' and vi > 0:
+            combos = rng.sample(combos, 6)
+        for given in combos:
+            spec = {'kind': 'model', 'style': style, 'script': 1, 'alias': alias, 'tracer': tracer}
+            if alias:
+                spec['aliases'], spec['preferred'] = {'AL1': 'Y'}, ['AL1']
+            out.append({'classes': {'M': spec},
+                        'ctor': {'cls': 'M', 'kind': 'model', 'given': given, 'span_list': len(given) % 2 == 1}})
+    for lstyle, alias in (('explicit', False), ('inherit', True)):
+        for mode in LINKER_SUB:
+            combos = subsets(LINKER_OPTS)
+            if tier == 'quick':
+                combos = [[], LINKER_OPTS] + rng.sample(combos, 2)
+            for given in combos:
+                out.append({'classes': {'M': {'kind': 'model', 'style': 'parser', 'script': 0, 'alias': False,
+                                              'tracer': False},
+                                        'L': {'kind': 'linker', 'style': lstyle, 'alias': alias}},
+                            'ctor': {'cls': 'L', 'kind': 'linker', 'given': given, 'sub': mode}})
+    for c in out:
+        c.update({'kind': 'ctor-defaults', 'prog': [], 'roots': [], 'ncopies': 0})
+    return out
+
+
+def oracle_ctor(rep, case, prep=None):
+    """Two instances of one class built with the same combination of given / omitted constructor arguments (every
+    argument object new), and the class: twin runs in every direction, plus the caller storing a submodel in one
+    linker's `submodels`."""
+    prep = prep or Prepared(case)
+    ctor = case['ctor']
+    n = 0
+
+    def pair(flip=False):
+        prep.restore()
+        with warnings.catch_warnings():
+            warnings.simplefilter('ignore')
+            a, b = ctor_call(prep.classes, ctor), ctor_call(prep.classes, ctor)
+        return (b, a) if flip else (a, b)
+
+    def inst_cls(flip=False):
+        a, _ = pair()
+        c = prep.classes[ctor['cls']]
+        return (c, a) if flip else (a, c)
+    try:
+        a, b = pair()
+    except Exception as e:   # noqa: BLE001
+        try:
+            prep.restore()
+            ctor_call(prep.classes, ctor)
+        except Exception:   # noqa: BLE001  the combination itself is not accepted: nothing to compare
+            rep.dist['ctor-defaults:combination rejected by the constructor'] += 1
+            return 0
+        violate(rep, 'sibling-construction-interferes', f'a second instance built with arguments {ctor} raises '
+                f'{type(e).__name__}: the first one left state behind', case)
+        return 1
+    n += twin(rep, 'sibling', 'a', a, 'b', b, case, pair)
+    n += twin(rep, 'sibling', 'b', b, 'a', a, case, lambda: pair(True))
+    n += twin(rep, 'class', 'a', a, ctor['cls'], prep.classes[ctor['cls']], case, inst_cls)
+    n += twin(rep, 'class', ctor['cls'], prep.classes[ctor['cls']], 'a', a, case, lambda: inst_cls(True))
+    if ctor['kind'] == 'linker':
+        a, b = pair()
+        before = hc.observe(b)
+        a.submodels['NEW'] = prep.classes['M'](range(3))
+        n += 1
+        if hc.observe(b) != before:
+            violate(rep, 'sibling-shares:submodels', f'sibling: a.submodels[k] = model (linkers built with {ctor}) '
+                    f'changed what is observed through b', dict(case, pair=['sibling', 'a', 'b'],
+                                                                 mutation='api:submodels-setitem'))
+    rep.dist[f"ctor-defaults:{ctor['kind']}:{len(ctor['given'])} of the optional arguments given"
+             + (f":submodels {ctor['sub']}" if ctor['kind'] == 'linker' else '')] += 1
+    return n
 
 
 def fixed_scenarios_(ctx, rep, batch):
@@ -845,6 +1037,7 @@ def fixed_scenarios_(ctx, rep, batch):
                     spec['aliases'] = {'AA': 'A0'}
                     spec['preferred'] = ['AA']
                 prog.append({'c': 'op', 'r': 'a', 'op': {'o': 'addAttrList', 'x': 'lstA', 'items': ['u']}})
+                prog += nested_attr_cmds('a')
                 prog.append({'c': 'copy', 'r': 'c0', 'of': 'a', 'route': 'method'})
                 prog.append({'c': 'snap', 'roots': ['a', 'b', 'c0', cname]})
                 case = {'classes': {cname: spec}, 'prog': prog, 'roots': ['a', 'b', 'c0'], 'ncopies': 1}
@@ -863,6 +1056,7 @@ def fixed_scenarios_(ctx, rep, batch):
                     {'c': 'new', 'r': 'l', 'cls': 'L', 'span': {'range': 3}, 'sub': 'd'},
                     {'c': 'op', 'r': 'l', 'op': {'o': 'inSub', 'key': 'A', 'op': {'o': 'addVariable', 'x': 'V9', 'n': 3,
                                                                                        'model': True}}},
+                    ] + nested_attr_cmds('l') + nested_attr_cmds('a') + [
                     {'c': 'copy', 'r': 'c0', 'of': 'l', 'route': 'copy.deepcopy'},
                     {'c': 'snap', 'roots': ['l', 'c0', 'M', 'L']}]
             case = {'classes': classes, 'prog': prog, 'roots': ['a', 'b', 'l', 'c0'], 'ncopies': 1}
